@@ -48,6 +48,11 @@ def cases(ctx):
         comp = r.random() < 0.5
         prefix = r.choice([0, 0x6F, r.randrange(256)])
         yield {"k": "key", "x": "%064x" % x, "compressed": comp, "prefix": prefix}
+        # a sequence of network changes on one address object, starting from a string / hash with an arbitrary prefix
+        steps = []
+        for _ in range(r.randrange(1, 4)):
+            steps.append({"preset": r.choice(["mainnet", "testnet", "regtest", "stn", "default"])} if r.random() < 0.6 else {"prefix": r.choice([0, 0, 0x6F, r.randrange(256)])})
+        yield {"k": "netseq", "hash": (b"\x00" * r.choice([0, 0, 1, 3]) + gen.rbytes(r, 20))[:20].hex(), "start_prefix": r.choice([0, 0x6F, 0x6F, r.randrange(256)]), "from_string": r.random() < 0.5, "steps": steps, "impl": r.random() < 0.3}
         if i % 4 == 0:
             yield {"k": "random_key"}
             yield {"k": "preset", "hash": (b"\x00" * r.choice([0, 0, 1, 3]) + gen.rbytes(r, 20))[:20].hex(), "preset": r.choice(["mainnet", "testnet", "regtest", "stn", "default"])}
@@ -197,6 +202,13 @@ def judge(ctx, case):
             ctx.viol("to_compressed / to_decompressed differ from the reference point encodings", {"got": str(po["to_compressed"])[:150] + str(po["to_decompressed"])[:200]})
         if po["cc"].get("ok", {}).get("bytes") != ec.ser(Q, True).hex() or po["dd"].get("ok", {}).get("bytes") != ec.ser(Q, False).hex():
             ctx.viol("compress(decompress(k)) / decompress(compress(k)) is not the identity", {})
+        for fld in ("serde_json", "serde_cbor"):
+            ctx.ev()
+            ctx.hit("pubkey_serde")
+            back = po[fld].get("ok")
+            back = back.get("back") if fld == "serde_json" and back else back
+            if back is None or back.get("bytes") != pub.hex() or back.get("compressed") != comp:
+                ctx.viol("public key does not round-trip through its %s encoding (%s form)" % ("serde JSON" if fld == "serde_json" else "serde CBOR", "compressed" if comp else "uncompressed"), {"got": str(po[fld])[:260], "exp": pub.hex()})
         if po["address"].get("ok") != ref_addr(h160, 0):
             ctx.viol("to_p2pkh_address differs from the reference address", {"got": str(po["address"])[:100], "exp": ref_addr(h160, 0)})
         p = case["prefix"]
@@ -235,6 +247,36 @@ def judge(ctx, case):
         ctx.ev()
         if "ok" not in r2 or (r2["ok"]["bytes"], r2["ok"]["pub"]) != (o["bytes"], o["pub"]):
             ctx.viol("randomly generated private key does not round-trip through WIF", {"resp": str(r2)[:200]})
+    elif k == "netseq":
+        h = bytes.fromhex(case["hash"])
+        p0 = case["start_prefix"]
+        rq = {"op": "addr", "then": case["steps"], "via_impl": case["impl"]}
+        if case["from_string"]:
+            rq["string"] = ref_addr(h, p0)
+        else:
+            rq["hash"] = case["hash"]
+            rq["prefix"] = p0
+        a = ctx.call(rq)
+        ctx.ev()
+        ao = a.get("ok")
+        if ao is None or not isinstance(ao.get("preset_prefix"), int):
+            ctx.viol("a sequence of set_chain_params calls on a valid address failed", {"resp": str(a)[:200], "steps": case["steps"]})
+            return
+        p = ao["preset_prefix"]  # the p2pkh byte of the LAST parameter set applied (read from the library's own ChainParams value)
+        last = case["steps"][-1]
+        if "prefix" in last and last["prefix"] != p:
+            ctx.viol("harness: last prefix mismatch", {})
+        ctx.hit("netseq_to_mainnet" if p == 0 and p0 != 0 else "netseq_other")
+        if case["impl"]:
+            ctx.hit("netseq_via_impl")
+        s_ = ref_addr(h, p)
+        if ao["string"].get("ok") != s_ or ao["hash"] != case["hash"]:
+            ctx.viol("after a sequence of set_chain_params calls the address string is not Base58Check(last prefix || hash) (%s -> %s%s)" % ("non-mainnet" if p0 else "mainnet", "mainnet" if p == 0 else "non-mainnet", ", set_chain_params_impl" if case["impl"] else ""), {"got": str(ao["string"])[:100], "exp": s_, "steps": case["steps"]})
+        for fld in ("serde_json", "serde_cbor"):
+            ctx.ev()
+            got = ao[fld].get("ok")
+            if got is None or got["string"] != s_ or got["hash"] != case["hash"]:
+                ctx.viol("address does not round-trip through its %s encoding" % fld.replace("serde_", "serde ").upper().replace("SERDE", "serde"), {"got": str(ao[fld])[:200], "exp": s_})
     elif k == "preset":
         h = bytes.fromhex(case["hash"])
         a = ctx.call({"op": "addr", "hash": case["hash"], "preset": case["preset"]})
